@@ -330,10 +330,14 @@ class Series(_Gap):
         return self._new()
 
     def __len__(self):
+        if all(z3.is_true(p) for p in self.present):
+            return len(self.vals)  # no row was ever masked out: the length is concrete
         raise ModelGap("len(Series) is symbolic")
 
     @property
     def shape(self):
+        if all(z3.is_true(p) for p in self.present):
+            return (len(self.vals),)
         raise ModelGap("Series.shape is symbolic")
 
     def rename(self, name):
